@@ -210,7 +210,7 @@ int main(int argc, char **argv) {
     if (argc >= 5 && !strcmp(argv[1], "bbox")) { vt_seed(strtoull(argv[3], 0, 10) + 77); return bbox_main(argv[2][0] == 'q', argv[4]); }
     if (argc >= 5 && !strcmp(argv[1], "needles")) {       /* needle-thin polygons only (the regime of the legacy fill's known finding) */
         int quick = argv[2][0] == 'q'; vt_seed(strtoull(argv[3], 0, 10) + 707); vt_open(argv[4]); getPentagons(0, PENT0); g_force_kind = 4;
-        for (int i = 0; i < (quick ? 120 : 3000); i++) { Poly P; if (gen_poly(&P, quick ? 8 * i + 1 : i, 1)) continue; fill_event(&P, quick ? 500 : 3000); }   /* quick: all on the antimeridian */
+        for (int i = 0; i < (quick ? 120 : 1200); i++) { Poly P; if (gen_poly(&P, quick ? 8 * i + 1 : i, 1)) continue; fill_event(&P, quick ? 500 : 2000); }   /* quick: all on the antimeridian */
         vt_close(); return 0;
     }
     if (argc < 5 || strcmp(argv[1], "run")) return 2;
